@@ -1,7 +1,7 @@
 (* C07 -- statements only; see DESIGN.md section 6 C07.  Theorems are added as the proofs land;
    the witnesses below are evaluated in the kernel on the whole-parser model. *)
 From Coq Require Import String.
-From MdIt Require Import Prims Tables Tree Render Core Dump Dispatch.
+From MdIt Require Import Prims Tables Ruler Tree Render Core Dump Dispatch CacheProofs.
 Local Open Scope string_scope.
 Local Open Scope list_scope.
 Local Open Scope N_scope.
@@ -22,3 +22,35 @@ Example C07_witness_no_leak :
   | _, _ => False
   end.
 Proof. vm_compute. reflexivity. Qed.
+
+(* The parser object is modelled with its interior-mutable caches as explicit state (the compiled
+   chain of each of the three rulers and the lazily chosen text scanner); per-document state
+   (reference map, per-paragraph caches, node environments) is created inside `parse` and is not
+   part of the parser at all.
+
+   a parser with warm caches returns what the same configuration with cold caches returns,
+   keeps its configuration and keeps its caches coherent *)
+Theorem C07_cache_independent : forall fuel m src, md_coherent m ->
+  snd (parse fuel m src) = snd (parse fuel (md_clear m) src) /\
+  md_coherent (fst (parse fuel m src)) /\ md_clear (fst (parse fuel m src)) = md_clear m.
+Proof. exact parse_cache_independent. Qed.
+
+(* for every configuration history cfg (plugin adds, rule removals, nesting limit) and every sequence
+   of documents already parsed, the next parse returns exactly what a freshly built parser with the
+   same configuration returns *)
+Theorem C07_reuse_same_as_fresh : forall cfg docs src,
+  result_after md_new (cfg ++ map HParse docs) src =
+  result_after md_new (filter (fun o => negb (is_parse o)) cfg) src.
+Proof. exact reuse_same_as_fresh. Qed.
+
+(* every parser reachable by configuration calls and parses has coherent caches *)
+Theorem C07_reachable_coherent : forall ops, md_coherent (hrun md_new ops).
+Proof. intros ops. exact (proj1 (hrun_erase ops md_new md_new md_new_coherent md_new_coherent eq_refl)). Qed.
+
+Example C07_nonvacuous : md_coherent (fst (parse 210 (build_md (bs "CsW") 100) (bs "*a* [b]"))) /\
+  md_text_impl (fst (parse 210 (build_md (bs "CsW") 100) (bs "*a*"))) <> None.
+Proof. split; [apply (parse_cache_independent 210 _ _ (C07_reachable_coherent [HSetNesting 100; HAdd (bs "CsW")]))|vm_compute; discriminate]. Qed.
+
+Print Assumptions C07_cache_independent.
+Print Assumptions C07_reuse_same_as_fresh.
+Print Assumptions C07_reachable_coherent.
